@@ -15,6 +15,7 @@ import (
 // use (append-mode regular files, directories, descriptors that survive unlink, mtimes from the
 // virtual clock). Every call is a scheduling point and is logged for the oracles.
 type FS struct {
+	nfd   int
 	x     *Exec
 	Nodes map[string]*Inode // cleaned path -> node
 	Log   []FSCall
@@ -47,6 +48,8 @@ type FSCall struct {
 	At    time.Time
 	Bytes int
 	TID   int
+	FD    int    // descriptor identity (open order), 0 if not descriptor-based
+	Data  string // bytes handed to a write call (whole argument, also for failed / short writes)
 }
 
 // File is an open descriptor.
@@ -57,6 +60,7 @@ type File struct {
 	Flag    int
 	Closed  bool
 	pos     int
+	ID      int
 	real    *os.File
 	special *[]byte
 }
@@ -160,9 +164,10 @@ func (f *FS) OpenFile(name string, flag int, perm os.FileMode) (*File, error) {
 		n.Data = nil
 		n.MTime = f.x.Now
 	}
-	fl := &File{fs: f, Ino: n, Path: p, Flag: flag}
+	f.nfd++
+	fl := &File{fs: f, Ino: n, Path: p, Flag: flag, ID: f.nfd}
 	f.Open[fl] = struct{}{}
-	f.log(FSCall{Op: "open", Path: p, Flag: flag})
+	f.log(FSCall{Op: "open", Path: p, Flag: flag, FD: fl.ID})
 	return fl, nil
 }
 
@@ -181,18 +186,18 @@ func (fl *File) Write(b []byte) (int, error) {
 	f := fl.fs
 	Point(KFS, nil)
 	if fl.Closed {
-		f.log(FSCall{Op: "write", Path: fl.Path, Err: "EBADF(closed)", Bytes: len(b)})
+		f.log(FSCall{Op: "write", Path: fl.Path, Err: "EBADF(closed)", Bytes: len(b), FD: fl.ID, Data: string(b)})
 		return 0, pathErr("write", fl.Path, os.ErrClosed)
 	}
 	if fl.Flag&(os.O_WRONLY|os.O_RDWR) == 0 {
-		f.log(FSCall{Op: "write", Path: fl.Path, Err: "EBADF", Bytes: len(b)})
+		f.log(FSCall{Op: "write", Path: fl.Path, Err: "EBADF", Bytes: len(b), FD: fl.ID, Data: string(b)})
 		return 0, pathErr("write", fl.Path, syscall.EBADF)
 	}
 	n := len(b)
 	var err error
 	switch Choose(SeamFault, 3) {
 	case 1:
-		f.log(FSCall{Op: "write", Path: fl.Path, Err: "EIO(injected)", Bytes: len(b)})
+		f.log(FSCall{Op: "write", Path: fl.Path, Err: "EIO(injected)", Bytes: len(b), FD: fl.ID, Data: string(b)})
 		return 0, pathErr("write", fl.Path, syscall.EIO)
 	case 2:
 		n = len(b) / 2
@@ -214,7 +219,7 @@ func (fl *File) Write(b []byte) (int, error) {
 	if err != nil {
 		e = "ENOSPC(short,injected)"
 	}
-	f.log(FSCall{Op: "write", Path: fl.Path, Bytes: n, Err: e})
+	f.log(FSCall{Op: "write", Path: fl.Path, Bytes: n, Err: e, FD: fl.ID, Data: string(b)})
 	return n, err
 }
 
@@ -234,14 +239,14 @@ func (fl *File) Sync() error {
 	}
 	Point(KFS, nil)
 	if fl.Closed {
-		fl.fs.log(FSCall{Op: "sync", Path: fl.Path, Err: "closed"})
+		fl.fs.log(FSCall{Op: "sync", Path: fl.Path, Err: "closed", FD: fl.ID})
 		return pathErr("sync", fl.Path, os.ErrClosed)
 	}
 	if Choose(SeamFault, 2) == 1 {
-		fl.fs.log(FSCall{Op: "sync", Path: fl.Path, Err: "EIO(injected)"})
+		fl.fs.log(FSCall{Op: "sync", Path: fl.Path, Err: "EIO(injected)", FD: fl.ID})
 		return pathErr("sync", fl.Path, syscall.EIO)
 	}
-	fl.fs.log(FSCall{Op: "sync", Path: fl.Path})
+	fl.fs.log(FSCall{Op: "sync", Path: fl.Path, FD: fl.ID})
 	return nil
 }
 
@@ -258,16 +263,16 @@ func (fl *File) Close() error {
 	}
 	Point(KFS, nil)
 	if fl.Closed {
-		fl.fs.log(FSCall{Op: "close", Path: fl.Path, Err: "closed"})
+		fl.fs.log(FSCall{Op: "close", Path: fl.Path, Err: "closed", FD: fl.ID})
 		return pathErr("close", fl.Path, os.ErrClosed)
 	}
 	fl.Closed = true
 	delete(fl.fs.Open, fl)
 	if Choose(SeamFault, 2) == 1 {
-		fl.fs.log(FSCall{Op: "close", Path: fl.Path, Err: "EIO(injected)"})
+		fl.fs.log(FSCall{Op: "close", Path: fl.Path, Err: "EIO(injected)", FD: fl.ID})
 		return pathErr("close", fl.Path, syscall.EIO)
 	}
-	fl.fs.log(FSCall{Op: "close", Path: fl.Path})
+	fl.fs.log(FSCall{Op: "close", Path: fl.Path, FD: fl.ID})
 	return nil
 }
 
